@@ -31,6 +31,21 @@ def p2(reader, n, timeout=900, hexonly=False):
                             reader=READERS[reader]))
 
 
+def p2b(reader, prefix, free=2, timeout=900):
+    """boundary decimal literals: concrete prefix + `free` symbolic characters"""
+    n = len(prefix) + free
+    c = p2(reader, n, timeout)
+    c.name = "integer-%s-edge%s" % (READERS[reader][10:], prefix.replace("-", "m"))
+    c.defs = c.defs + ['-DDECPREFIX="%s"' % prefix]
+    c.optional_witness = ["WITNESS negative-decimal", "WITNESS hex"]
+    c.bounds = dict(literal="every decimal literal %s followed by 0..%d more digits whose value fits the reader's type" % (prefix, free), reader=READERS[reader])
+    return c
+
+
+EDGES = [(0, "-21474836"), (0, "21474836"), (1, "42949672"), (2, "-92233720368547758"), (2, "92233720368547758"), (3, "184467440737095516"),
+         (0, "-327"), (0, "655"), (2, "-21474836"), (2, "42949672"), (3, "42949672")]
+
+
 def p3(cls, stride, timeout=900):
     return Case("units-class%02d-of-%d" % (cls, stride), H, SRCS, defs=["-DPART=3", "-DN=4", "-DUNIT_CLASS=%d" % cls, "-DUNIT_STRIDE=%d" % stride, "-DSPECIALS=0"], unwind=14,
                 unwindset=dict(US, **{"harness.1": 130, "translateUnit.0": 130, "strlen.0": 12, "skipWs.0": 6, "skipNumbers.0": 6, "skipAlpha.0": 8, "strncasecmp.0": 8, "vm_strtod_core.0": 4, "vm_strtod_core.1": 4, "vm_strtod_core.2": 4, "skipWhitespace.0": 6}),
@@ -62,6 +77,9 @@ def cases(tier):
     cs.append(p2(2, 18, 900 if q else 3000, hexonly=True))
     cs.append(p2(1, 10, 900 if q else 3000, hexonly=True))
     cs.append(p2(0, 10, 900 if q else 3000, hexonly=True))
+    # decimal literals at the edge of each integer type's range (10..20 characters)
+    for r, pre in EDGES:
+        cs.append(p2b(r, pre, 2 if q else 3, 900 if q else 3000))
     cs.append(p3s(900 if q else 3000))
     return cs
 
